@@ -3,6 +3,7 @@ package main
 import (
 	"context"
 	"fmt"
+	"runtime"
 	"sync"
 	"time"
 
@@ -135,6 +136,17 @@ func finishEnd[A p2p.Addr](ctx context.Context, e *stackEnd, sw p2p.Swarm[A], pi
 	go func() {
 		for {
 			if err := sw.Receive(ctx, func(m p2p.Message[A]) {
+				if slowCallbacks { // the message belongs to this callback until it returns
+					h0 := fnv64(m.Payload)
+					for k := 0; k < 3; k++ {
+						runtime.Gosched()
+						time.Sleep(20 * time.Microsecond)
+						if fnv64(m.Payload) != h0 {
+							payloadChanged.Add(1)
+							break
+						}
+					}
+				}
 				e.mu.Lock()
 				e.got = append(e.got, stackMsg{textOf(m.Src), textOf(m.Dst), append([]byte{}, m.Payload...)})
 				e.mu.Unlock()
